@@ -39,11 +39,21 @@ theorem fifo_step (s : WakeSys) (t : Tid) (a : WAct) (s' : WakeSys) (hi : Fifo s
   unfold Fifo at *
   cases a <;> simp only [WakeSys.step] at h
   case append id len =>
-    split at h <;> simp [Gen.wakeAfterAppend] at h
-    subst h
-    simp [WakeSys.handBytes, WakeSys.queueBytes, WakeSys.allBytes] at hi ⊢
-    rw [← hi]; simp
+    have key : ∀ s1 : WakeSys, s1.wire = s.wire → s1.hand = s.hand → s1.queue = s.queue ++ [{ id := id, len := len }] →
+        s1.all = s.all ++ [{ id := id, len := len }] → s1.wire ++ s1.handBytes ++ s1.queueBytes = s1.allBytes := by
+      intro s1 h1 h2 h3 h4
+      simp [WakeSys.handBytes, WakeSys.queueBytes, WakeSys.allBytes, h1, h2, h3, h4] at hi ⊢
+      rw [← hi]; simp
+    split at h
+    · split at h <;> simp at h
+      subst h
+      exact key _ rfl (by simp) (by simp) rfl
+    · split at h <;> simp [Gen.wakeAfterAppend] at h
+      subst h
+      exact key _ rfl (by simp) (by simp) rfl
   case wake =>
+    split at h
+    · simp at h
     split at h <;> simp [Gen.wakeAfterAppend] at h
     subst h
     simpa [WakeSys.handBytes, WakeSys.queueBytes, WakeSys.allBytes] using hi
@@ -54,24 +64,52 @@ theorem fifo_step (s : WakeSys) (t : Tid) (a : WAct) (s' : WakeSys) (hi : Fifo s
     · rename_i p hp
       split at h
       · rename_i hn
-        split at h <;> simp at h <;> subst h
-        · rename_i hdone
-          simp [WakeSys.handBytes, WakeSys.queueBytes, WakeSys.allBytes, hp] at hi ⊢
+        simp at h
+        subst h
+        by_cases hdone : p.pos + n = p.len
+        · simp [WakeSys.handBytes, WakeSys.queueBytes, WakeSys.allBytes, hp, hdone] at hi ⊢
           rw [← hi]
           have : List.take n p.rest = p.rest := List.take_of_length_le (by rw [Pkt.rest_length]; omega)
           rw [this]
-        · simp [WakeSys.handBytes, WakeSys.queueBytes, WakeSys.allBytes, hp] at hi ⊢
+        · simp [WakeSys.handBytes, WakeSys.queueBytes, WakeSys.allBytes, hp, hdone] at hi ⊢
           rw [← hi, Pkt.rest_advance]
           rw [← List.append_assoc (List.take n _), List.take_append_drop]
       · simp at h
     · simp at h
+  case pop =>
+    split at h
+    · simp at h
+    split at h
+    · rename_i hg _ p rest hq
+      simp at h; subst h
+      simp at hg
+      simp [WakeSys.handBytes, WakeSys.queueBytes, WakeSys.allBytes, hg.2.1, hq] at hi ⊢
+      exact hi
+    · simp at h; subst h
+      simpa [WakeSys.handBytes, WakeSys.queueBytes, WakeSys.allBytes] using hi
+  case pushback =>
+    split at h
+    · simp at h
+    split at h
+    · rename_i p hp
+      simp [Gen.pushbackFront] at h; subst h
+      simp [WakeSys.handBytes, WakeSys.queueBytes, WakeSys.allBytes, hp] at hi ⊢
+      exact hi
+    · simp at h
+  case clear =>
+    split at h
+    · simp at h
+    · rename_i hh
+      simp at h; subst h
+      simp at hh
+      simp [WakeSys.handBytes, WakeSys.queueBytes, WakeSys.allBytes, hh]
   all_goals
     repeat' split at h
     all_goals first
       | (simp at h; done)
       | (simp at h
          subst h
-         simp_all [WakeSys.handBytes, WakeSys.queueBytes, WakeSys.allBytes, Gen.pushbackFront])
+         simpa [WakeSys.handBytes, WakeSys.queueBytes, WakeSys.allBytes] using hi)
 
 theorem fifo_run (w : Tid) (sched : List (Tid × WAct)) : Fifo ((({ loopTid := w } : WakeSys)).run sched) :=
   WakeSys.run_inv Fifo fifo_step _ sched (by simp [Fifo, WakeSys.handBytes, WakeSys.queueBytes, WakeSys.allBytes])
@@ -84,6 +122,10 @@ theorem cnt_step (s : WakeSys) (t : Tid) (a : WAct) (s' : WakeSys) (hi : Cnt s) 
   obtain ⟨hs, hnd, hlen, hmem⟩ := hi
   cases a <;> simp only [WakeSys.step] at h
   case append id len =>
+    split at h
+    · split at h <;> simp at h
+      subst h
+      exact ⟨hs, hnd, hlen, hmem⟩
     split at h <;> simp [Gen.wakeAfterAppend] at h
     rename_i hidle
     subst h
@@ -95,6 +137,8 @@ theorem cnt_step (s : WakeSys) (t : Tid) (a : WAct) (s' : WakeSys) (hi : Cnt s) 
       · subst hx; simp
       · simp [upd_other _ _ _ hx, hmem, hx]
   case wake =>
+    split at h
+    · simp at h
     split at h <;> simp [Gen.wakeAfterAppend] at h
     rename_i hhalf
     subst h
@@ -129,44 +173,168 @@ theorem Cnt.pos {s : WakeSys} (h : Cnt s) (h0 : s.nhalf > 0) : ∃ t, s.ppc t = 
   | t :: _, _ => exact ⟨t, (hmem t).2 (by simp)⟩
 
 /-! ### no lost wake-up, no stall -/
-def NoLost (s : WakeSys) : Prop := s.queue ≠ [] → s.lpc = .armed false → s.pipe > 0 ∨ s.nhalf > 0
+/-- the writer is in `armed` only with a wake-up pipe and nothing in hand (`wantw` requires both) -/
+def ArmedOk (s : WakeSys) : Prop := ∀ w, s.lpc = .armed w → s.hasPipe = true ∧ s.hand = none
 
-set_option linter.unusedVariables false in
-theorem nolost_step (s : WakeSys) (t : Tid) (a : WAct) (s' : WakeSys) (hi : NoLost s) (h : s.step t a = some s') : NoLost s' := by
-  unfold NoLost at *
+theorem armedok_step (s : WakeSys) (t : Tid) (a : WAct) (s' : WakeSys) (hi : ArmedOk s) (h : s.step t a = some s') : ArmedOk s' := by
+  unfold ArmedOk at *
   cases a <;> simp only [WakeSys.step] at h
   case append id len =>
-    split at h <;> simp [Gen.wakeAfterAppend] at h
-    subst h
-    intro _ _; right; simp
+    split at h
+    · split at h <;> simp at h
+      subst h; exact hi
+    · split at h <;> simp [Gen.wakeAfterAppend] at h
+      subst h; exact hi
   case wake =>
+    split at h
+    · simp at h
     split at h <;> simp [Gen.wakeAfterAppend] at h
-    subst h
-    intro _ _; left; simp
+    subst h; exact hi
+  case wantw =>
+    split at h
+    · rename_i hg
+      simp at h; subst h
+      intro w _
+      simp at hg
+      exact ⟨hg.2.2.2, hg.2.2.1⟩
+    · simp at h
+  case pop =>
+    split at h
+    · simp at h
+    rename_i hg
+    simp at hg
+    split at h
+    · simp at h; subst h
+      intro w hw
+      simp at hw
+      simp [hw, LPc.mayWrite] at hg
+    · simp at h; subst h
+      intro w hw
+      simp at hw
+      split at hw
+      · simp at hw
+      · simp [hw, LPc.mayWrite] at hg
+  case send n =>
+    split at h
+    · simp at h
+    split at h
+    · rename_i p hp
+      split at h
+      · simp at h; subst h
+        intro w hw
+        have := (hi w hw).2
+        simp [hp] at this
+      · simp at h
+    · simp at h
+  case pushback =>
+    split at h
+    · simp at h
+    split at h
+    · rename_i p hp
+      simp at h; subst h
+      intro w hw
+      exact ⟨(hi w hw).1, rfl⟩
+    · simp at h
   all_goals
     repeat' split at h
     all_goals first
       | (simp at h; done)
       | (simp at h
          subst h
-         simp_all
-         done)
+         first | exact hi | (intro w hw; simp_all; done))
+
+def NoLost0 (s : WakeSys) : Prop := s.queue ≠ [] → s.lpc = .armed false → s.pipe > 0 ∨ s.nhalf > 0
+
+theorem nolost0_step (s : WakeSys) (t : Tid) (a : WAct) (s' : WakeSys) (hA : ArmedOk s) (hi : NoLost0 s)
+    (h : s.step t a = some s') : NoLost0 s' := by
+  unfold NoLost0 at *
+  unfold ArmedOk at hA
+  cases a <;> simp only [WakeSys.step] at h
+  case append id len =>
+    split at h
+    · rename_i hnp
+      split at h <;> simp at h
+      subst h
+      intro _ hl
+      have := (hA _ hl).1
+      simp [this] at hnp
+    · split at h <;> simp [Gen.wakeAfterAppend] at h
+      subst h
+      intro _ _; right; simp
+  case wake =>
+    split at h
+    · simp at h
+    split at h <;> simp [Gen.wakeAfterAppend] at h
+    subst h
+    intro _ _; left; simp
+  case wantw =>
+    split at h
+    · simp at h; subst h
+      intro hq hl
+      simp at hq hl
+      exact absurd hl hq
+    · simp at h
+  case pop =>
+    split at h
+    · simp at h
+    rename_i hg
+    simp at hg
+    split at h
+    · simp at h; subst h
+      intro _ hl
+      simp at hl
+      simp [hl, LPc.mayWrite] at hg
+    · simp at h; subst h
+      intro hq
+      simp_all
+  case send n =>
+    split at h
+    · simp at h
+    split at h
+    · split at h
+      · simp at h; subst h
+        exact hi
+      · simp at h
+    · simp at h
+  case pushback =>
+    split at h
+    · simp at h
+    split at h
+    · rename_i p hp
+      simp at h; subst h
+      intro _ hl
+      have := (hA _ hl).2
+      simp [hp] at this
+    · simp at h
+  all_goals
+    repeat' split at h
+    all_goals first
+      | (simp at h; done)
       | (simp at h
          subst h
-         intro h1 h2
-         simp_all)
+         first | exact hi | (intro h1 h2; simp_all; done))
+
+def NoLost (s : WakeSys) : Prop := ArmedOk s ∧ NoLost0 s
+
+theorem nolost_step (s : WakeSys) (t : Tid) (a : WAct) (s' : WakeSys) (hi : NoLost s) (h : s.step t a = some s') : NoLost s' :=
+  ⟨armedok_step s t a s' hi.1 h, nolost0_step s t a s' hi.1 hi.2 h⟩
 
 theorem nolost_run (w : Tid) (sched : List (Tid × WAct)) : NoLost ((({ loopTid := w } : WakeSys)).run sched) :=
-  WakeSys.run_inv NoLost nolost_step _ sched (by simp [NoLost])
-
+  WakeSys.run_inv NoLost nolost_step _ sched (by simp [NoLost, NoLost0, ArmedOk])
 
 /-- the stall counter stays at zero (needs the no-lost-wake-up invariant at `select`) -/
 def NoStall (s : WakeSys) : Prop := NoLost s ∧ s.stalls = 0
 
 theorem nostall_step (s : WakeSys) (t : Tid) (a : WAct) (s' : WakeSys) (hi : NoStall s) (h : s.step t a = some s') : NoStall s' := by
   refine ⟨nolost_step s t a s' hi.1 h, ?_⟩
-  obtain ⟨hl, h0⟩ := hi
+  obtain ⟨⟨_, hl⟩, h0⟩ := hi
   cases a <;> simp only [WakeSys.step] at h
+  case append id len =>
+    split at h
+    · split at h <;> simp at h
+      subst h; exact h0
+    · split at h <;> simp [Gen.wakeAfterAppend] at h
+      subst h; exact h0
   case select sockR writable =>
     split at h
     · simp at h
@@ -196,7 +364,7 @@ theorem nostall_step (s : WakeSys) (t : Tid) (a : WAct) (s' : WakeSys) (hi : NoS
          exact h0)
 
 theorem nostall_run (w : Tid) (sched : List (Tid × WAct)) : NoStall ((({ loopTid := w } : WakeSys)).run sched) :=
-  WakeSys.run_inv NoStall nostall_step _ sched (by simp [NoStall, NoLost])
+  WakeSys.run_inv NoStall nostall_step _ sched (by simp [NoStall, NoLost, NoLost0, ArmedOk])
 
 /-! ### CONNECT first -/
 def ConnFirst (s : WakeSys) : Prop :=
@@ -206,19 +374,29 @@ theorem connfirst_step (s : WakeSys) (t : Tid) (a : WAct) (s' : WakeSys) (hi : C
   unfold ConnFirst at *
   cases a <;> simp only [WakeSys.step] at h
   case append id len =>
+    have key : ∀ s1 : WakeSys, s1.all = s.all ++ [{ id := id, len := len }] → s1.fresh = (s.fresh && decide (id ≠ 0)) →
+        s1.raced = (if s.fresh ∧ id ≠ 0 then s.raced + 1 else s.raced) →
+        (s1.raced = 0 → if s1.fresh then s1.all = [] else (s1.all.head?.map (·.id)) = some 0) := by
+      intro s1 e1 e2 e3
+      rw [e1, e2, e3]
+      by_cases hf : s.fresh = true
+      · by_cases hid : id = 0
+        · simp [hf, hid] at hi ⊢
+          intro h0; simp [hi h0]
+        · simp [hf, hid]
+      · simp [hf] at hi ⊢
+        intro h0
+        have := hi h0
+        cases hall : s.all with
+        | nil => simp [hall] at this
+        | cons x xs => simpa [hall] using this
+    split at h
+    · split at h <;> simp at h
+      subst h
+      exact key _ rfl (by simp) (by simp)
     split at h <;> simp [Gen.wakeAfterAppend] at h
     subst h
-    by_cases hf : s.fresh = true
-    · by_cases hid : id = 0
-      · simp [hf, hid] at hi ⊢
-        intro h0; simp [hi h0]
-      · simp [hf, hid]
-    · simp [hf] at hi ⊢
-      intro h0
-      have := hi h0
-      cases hall : s.all with
-      | nil => simp [hall] at this
-      | cons x xs => simpa [hall] using this
+    exact key _ rfl (by simp) (by simp)
   all_goals
     repeat' split at h
     all_goals first
